@@ -10,7 +10,7 @@
    This file contains only statements closed by `exact`, their assumptions and non-vacuity examples.
    Generated once by tools/genprops.py from the proved lemmas (statements restated verbatim). *)
 From Coq Require Import List NArith ZArith Bool Lia Sorting.Permutation.
-From Viv Require Import Base.Assoc Base.Tree Model.Paths Model.Steps Model.Struct Model.StructC Proofs.Struct_proofs Proofs.Consistent_proofs Proofs.MoveP_proofs Proofs.Consistent2_proofs Model.Fronts Proofs.Fronts_proofs Proofs.Fronts_engine_proofs Proofs.Sched_entry_proofs.
+From Viv Require Import Base.Assoc Base.Tree Model.Paths Model.Steps Model.Struct Model.StructC Proofs.Struct_proofs Proofs.Consistent_proofs Proofs.MoveP_proofs Proofs.Consistent2_proofs Model.Fronts Proofs.Fronts_proofs Proofs.Fronts_engine_proofs Proofs.Coherent_proofs Proofs.Sched_entry_proofs.
 Import ListNotations.
 
 (* DELETIONS FIRST: after an update a registered process lies under a path the update deleted only if the same update (re-)registered it there - what was deleted (or moved away under its old path) is never polled again, what the update put there is *)
@@ -1099,6 +1099,176 @@ Theorem C10_front_apply_neq_refuted :
               entry_of T (b_procs rt_book) fr ob))).
 Proof. exact @front_apply_neq_refuted. Qed.
 Print Assumptions C10_front_apply_neq_refuted.
+
+(* the premise reports_coherent of the multi-operation theorems is a THEOREM: with process objects unique, one update of any number of operations reports every object with one record *)
+Theorem C10_apply_ops_reports_coherent :
+  forall (mk_child : N -> cnode * N) (D : Type) (build : D -> N -> cnode * N)
+           (copy_procs : cnode -> N -> cnode * N),
+         (forall u : N, proc_nodes (fst (mk_child u)) [] = []) ->
+         (forall u : N, cwf (fst (mk_child u))) ->
+         (forall (x : D) (n : N), cwf (fst (build x n))) ->
+         (forall (x : D) (n : N) (p : list key) (pi : pinfo),
+          In (p, pi) (proc_nodes (fst (build x n)) []) -> pi_in_steps pi = true -> pi_step pi = true) ->
+         (forall (m : cnode) (n : N), cwf m -> cwf (fst (copy_procs m n))) ->
+         (forall u : N, (u <= snd (mk_child u))%N) ->
+         (forall (d : D) (u : N), fresh_sub (fst (build d u)) u (snd (build d u))) ->
+         (forall (m : cnode) (u : N), fresh_sub (fst (copy_procs m u)) u (snd (copy_procs m u))) ->
+         forall (vr : variant) (t : cnode) (here : list key) (ops : list (sop D)) 
+           (uid : N) (t' : cnode) (rp : reports) (uid' : N),
+         cwf t ->
+         objs_unique t ->
+         objs_below t uid ->
+         ops_ok mk_child D build copy_procs vr t here (order_ops D ops) uid ->
+         apply_ops mk_child D build copy_procs vr t here ops uid = Ok (t', rp, uid') ->
+         reports_coherent rp.
+Proof. exact @apply_ops_reports_coherent. Qed.
+Print Assumptions C10_apply_ops_reports_coherent.
+
+(* tables = hierarchy after ONE update of any number of operations through the full engine step, with no premise on the reports (invariants: well-formed hierarchy, unique process objects below the counter; preserved) *)
+Theorem C10_engine_consistent_ops_unique :
+  forall (mk_child : N -> cnode * N) (D : Type) (build : D -> N -> cnode * N)
+           (copy_procs : cnode -> N -> cnode * N),
+         (forall u : N, proc_nodes (fst (mk_child u)) [] = []) ->
+         (forall u : N, cwf (fst (mk_child u))) ->
+         (forall (x : D) (n : N), cwf (fst (build x n))) ->
+         (forall (x : D) (n : N) (p : list key) (pi : pinfo),
+          In (p, pi) (proc_nodes (fst (build x n)) []) -> pi_in_steps pi = true -> pi_step pi = true) ->
+         (forall (m : cnode) (n : N), cwf m -> cwf (fst (copy_procs m n))) ->
+         (forall u : N, (u <= snd (mk_child u))%N) ->
+         (forall (d : D) (u : N), fresh_sub (fst (build d u)) u (snd (build d u))) ->
+         (forall (m : cnode) (u : N), fresh_sub (fst (copy_procs m u)) u (snd (copy_procs m u))) ->
+         forall (vr : variant) (t : cnode) (here : list key) (ops : list (sop D)) 
+           (uid : N) (t' : cnode) (rp : reports) (uid' : N) (b b' : book),
+         cwf t ->
+         objs_unique t ->
+         objs_below t uid ->
+         ops_ok mk_child D build copy_procs vr t here (order_ops D ops) uid ->
+         consistent_procs t b ->
+         consistent_steps t b ->
+         apply_ops mk_child D build copy_procs vr t here ops uid = Ok (t', rp, uid') ->
+         engine_apply b t' rp = Ok b' ->
+         cwf t' /\
+         consistent_procs t' b' /\
+         consistent_steps t' b' /\ objs_unique t' /\ objs_below t' uid' /\ (uid <= uid')%N.
+Proof. exact @engine_consistent_ops_unique. Qed.
+Print Assumptions C10_engine_consistent_ops_unique.
+
+(* ... along any history of such updates *)
+Theorem C10_engine_consistent_history_unique :
+  forall (mk_child : N -> cnode * N) (D : Type) (build : D -> N -> cnode * N)
+           (copy_procs : cnode -> N -> cnode * N),
+         (forall u : N, proc_nodes (fst (mk_child u)) [] = []) ->
+         (forall u : N, cwf (fst (mk_child u))) ->
+         (forall (x : D) (n : N), cwf (fst (build x n))) ->
+         (forall (x : D) (n : N) (p : list key) (pi : pinfo),
+          In (p, pi) (proc_nodes (fst (build x n)) []) -> pi_in_steps pi = true -> pi_step pi = true) ->
+         (forall (m : cnode) (n : N), cwf m -> cwf (fst (copy_procs m n))) ->
+         (forall u : N, (u <= snd (mk_child u))%N) ->
+         (forall (d : D) (u : N), fresh_sub (fst (build d u)) u (snd (build d u))) ->
+         (forall (m : cnode) (u : N), fresh_sub (fst (copy_procs m u)) u (snd (copy_procs m u))) ->
+         forall (vr : variant) (h : list (list key * list (sop D))) (t : cnode) 
+           (b : book) (u : N) (t' : cnode) (b' : book) (u' : N),
+         engine_history_u mk_child D build copy_procs vr h t b u t' b' u' ->
+         cwf t ->
+         objs_unique t ->
+         objs_below t u ->
+         consistent_procs t b ->
+         consistent_steps t b ->
+         cwf t' /\
+         consistent_procs t' b' /\
+         consistent_steps t' b' /\ objs_unique t' /\ objs_below t' u' /\ (u <= u')%N.
+Proof. exact @engine_consistent_history_unique. Qed.
+Print Assumptions C10_engine_consistent_history_unique.
+
+(* END TO END without any premise on the reports: along any history every invariant is kept and a process object registered throughout ends with the schedule entry it started with *)
+Theorem C10_engine_front_history_unique :
+  forall (mk_child : N -> cnode * N) (D : Type) (build : D -> N -> cnode * N)
+           (copy_procs : cnode -> N -> cnode * N),
+         (forall u : N, proc_nodes (fst (mk_child u)) [] = []) ->
+         (forall u : N, cwf (fst (mk_child u))) ->
+         (forall (x : D) (n : N), cwf (fst (build x n))) ->
+         (forall (x : D) (n : N) (p : list key) (pi : pinfo),
+          In (p, pi) (proc_nodes (fst (build x n)) []) -> pi_in_steps pi = true -> pi_step pi = true) ->
+         (forall (m : cnode) (n : N), cwf m -> cwf (fst (copy_procs m n))) ->
+         (forall u : N, (u <= snd (mk_child u))%N) ->
+         (forall (d : D) (u : N), fresh_sub (fst (build d u)) u (snd (build d u))) ->
+         (forall (m : cnode) (u : N), fresh_sub (fst (copy_procs m u)) u (snd (copy_procs m u))) ->
+         forall (T : Type) (vr : variant) (h : list (list key * list (sop D))) 
+           (t : cnode) (b : book) (u : N) (fr : fronts T) (bs : list book) 
+           (t' : cnode) (b' : book) (u' : N) (fr' : fronts T),
+         efront_history_u mk_child D build copy_procs T vr h t b u fr bs t' b' u' fr' ->
+         cwf t ->
+         objs_unique t ->
+         objs_below t u ->
+         consistent_procs t b ->
+         consistent_steps t b ->
+         wf_front T (b_procs b) fr ->
+         (cwf t' /\
+          objs_unique t' /\
+          objs_below t' u' /\
+          consistent_procs t' b' /\ consistent_steps t' b' /\ wf_front T (b_procs b') fr') /\
+         (forall o : N,
+          (forall bi : book, In bi bs -> In o (map snd (b_procs bi))) ->
+          entry_of T (b_procs b') fr' o = entry_of T (b_procs b) fr o).
+Proof. exact @engine_front_history_unique. Qed.
+Print Assumptions C10_engine_front_history_unique.
+
+(* ... instantiated for the concrete kit of the correspondence *)
+Theorem C10_structc_engine_consistent_history_unique :
+  forall (vr : variant) (h : list (list key * list (sop N))) (t : cnode) 
+           (b : book) (u : N) (t' : cnode) (b' : book) (u' : N),
+         engine_history_u mk_child N build copy_procs vr h t b u t' b' u' ->
+         cwf t ->
+         objs_unique t ->
+         objs_below t u ->
+         consistent_procs t b ->
+         consistent_steps t b ->
+         cwf t' /\
+         consistent_procs t' b' /\
+         consistent_steps t' b' /\ objs_unique t' /\ objs_below t' u' /\ (u <= u')%N.
+Proof. exact @structc_engine_consistent_history_unique. Qed.
+Print Assumptions C10_structc_engine_consistent_history_unique.
+
+(* ... instantiated for the concrete kit of the correspondence *)
+Theorem C10_structc_engine_front_history_unique :
+  forall (T : Type) (vr : variant) (h : list (list key * list (sop N))) 
+           (t : cnode) (b : book) (u : N) (fr : fronts T) (bs : list book) 
+           (t' : cnode) (b' : book) (u' : N) (fr' : fronts T),
+         efront_history_u mk_child N build copy_procs T vr h t b u fr bs t' b' u' fr' ->
+         cwf t ->
+         objs_unique t ->
+         objs_below t u ->
+         consistent_procs t b ->
+         consistent_steps t b ->
+         wf_front T (b_procs b) fr ->
+         (cwf t' /\
+          objs_unique t' /\
+          objs_below t' u' /\
+          consistent_procs t' b' /\ consistent_steps t' b' /\ wf_front T (b_procs b') fr') /\
+         (forall o : N,
+          (forall bi : book, In bi bs -> In o (map snd (b_procs bi))) ->
+          entry_of T (b_procs b') fr' o = entry_of T (b_procs b) fr o).
+Proof. exact @structc_engine_front_history_unique. Qed.
+Print Assumptions C10_structc_engine_front_history_unique.
+
+(* without unique process objects one update (three nested moves) yields incoherent reports and an inconsistent process table: the invariant is what replaces the premise *)
+Theorem C10_reports_coherent_needs_unique :
+  exists (t' : cnode) (rp : reports) (u' : N) (b' : book),
+           cwf nu_root /\
+           objs_below nu_root 100 /\
+           ~ objs_unique nu_root /\
+           consistent_procs nu_root nu_book /\
+           consistent_steps nu_root nu_book /\
+           ops_ok mk_child N build copy_procs vfixed nu_root [] (order_ops N nu_ops) 100 /\
+           kapply_ops vfixed nu_root [] nu_ops 100 = Ok (t', rp, u') /\
+           In ([3%N; 2%N; 1%N; 5%N; 9%N], nu_P7) (r_process rp) /\
+           In ([3%N; 2%N; 1%N; 5%N; 9%N], nu_S7) (r_step rp) /\
+           ~ reports_coherent rp /\
+           kengine_apply nu_book t' rp = Ok b' /\
+           In ([3%N; 2%N; 1%N; 5%N; 9%N], 7%N) (b_procs b') /\
+           ~ In ([3%N; 2%N; 1%N; 5%N; 9%N], 7%N) (proc_paths t') /\ ~ consistent_procs t' b'.
+Proof. exact @reports_coherent_needs_unique. Qed.
+Print Assumptions C10_reports_coherent_needs_unique.
 
 
 (* ---- non-vacuity on the concrete kit (Model/StructC.v) ---- *)
